@@ -157,12 +157,12 @@ def DocOk : Option SDoc → Prop
 
 /-- `docstr:(DocString __)?` in front of a token `x` (for an absent doc: `x` does not start with `/`). -/
 theorem docOpt_parses (d : Option SDoc) (hd : DocOk d) (x : List Char) (hx : TokHead x) :
-    ∃ t, ParsesTo grammar (.lab "docstr" (.opt (.seq [.ref "DocString", .ref "__"]))) (docText d ++ x) t x ((docText d).length * 2 + 90) ∧
-      evDoc (unlab t) = docValue d := by
+    ∃ t, ParsesTo grammar (.lab "docstr" (.opt (.seq [.ref "DocString", .ref "__"]))) (docText d ++ x) (.lab "docstr" t) x ((docText d).length * 2 + 90) ∧
+      evDoc t = docValue d := by
   cases d with
   | none =>
     have hf := FailsOn.seq (SeqFail.head (es := [.ref "__"]) (docstring_fails_tok x (tok_ne_slash hx)))
-    exact ⟨.lab "docstr" .nil, (ParsesTo.lab (ParsesTo.opt_none hf)).mono (by simp [docText]), rfl⟩
+    exact ⟨.nil, (ParsesTo.lab (ParsesTo.opt_none hf)).mono (by simp [docText]), rfl⟩
   | some d =>
     obtain ⟨hb, hg⟩ := hd
     obtain ⟨ts, hu⟩ := uu_consumes d.gap x hg.isGap hx
